@@ -338,6 +338,12 @@ def run(ctx):
         rep.violated('R1.3', _f2, norm(_node)[:60],
                      '%s replaces / empties the memo but leaves cachecomplete as it is: after a complete pass the flag stays '
                      'raised, so later passes are served from the emptied memo and differ from the first' % _f2.name, _node)
+    from .common import cacheview_flag_on_exhaustion
+    fn2, why = cacheview_flag_on_exhaustion(ctx)
+    if why is None:
+        rep.held('R1.3', fn2, 'complete only on exhaustion', 'the flag is raised after the loop over the inner table ended normally', fn2.node)
+    else:
+        rep.violated('R1.3', fn2, 'complete only on exhaustion', why, fn2.node)
     cfn, cex = cacheview_flag_truthful(ctx)
     if cex is None:
         rep.held('R1.3', cfn, 'self.cachecomplete = True', 'raised only while every row of the pass was memoised', cfn.node)
@@ -448,6 +454,27 @@ def r13(ctx, rep, v, found):
     if not any(f.cls is cls for f in fns):
         return 0
     acc = accesses(ctx, fns)
+    # an iterator function that is handed the view itself (`iterfoo(self)`) writes the view's attributes through its
+    # parameter: `view.getv = ...` there is `self.getv = ...`
+    for f in fns:
+        for call in own_nodes(f.node):
+            if not (isinstance(call, ast.Call) and any(isinstance(a, ast.Name) and a.id == 'self' for a in call.args)):
+                continue
+            try:
+                refs = ctx.res.resolve_call(f, call)
+            except Exception:
+                refs = []
+            for r in refs:
+                if r.kind != 'func' or r.target.cls is not None:
+                    continue
+                g = r.target
+                for i, a in enumerate(call.args):
+                    if isinstance(a, ast.Name) and a.id == 'self' and i < len(g.posparams):
+                        pn = g.posparams[i]
+                        for n in own_nodes(g.node):
+                            if isinstance(n, ast.Attribute) and isinstance(n.value, ast.Name) and n.value.id == pn and \
+                                    isinstance(n.ctx, (ast.Store, ast.Del)):
+                                acc.append(Access(n.attr, 'assign', g, n, n, 'through parameter `%s`' % pn))
     written = {}
     for a in acc:
         if a.kind != 'read':
